@@ -1,6 +1,8 @@
 //! vrec: the recorder (drives the real library, writes NDJSON traces) and
 //! the replayer (steps TLC-generated behaviours through the real library).
 mod alloc;
+mod fam_codec;
+mod fam_dist;
 mod fam_gen;
 mod fam_len;
 mod fam_stream;
@@ -56,6 +58,15 @@ fn main() {
         "c03" => fam_gen::run_c03(&mut out, &mut rng, args.thorough, only),
         "c10" => fam_gen::run_c10(&mut out, &mut rng, args.thorough, only),
         "c11" => fam_gen::run_c11(&mut out, &mut rng, args.thorough, only),
+        "c02" => fam_dist::run_c02(&mut out, &mut rng, args.thorough, only),
+        "c08" => fam_dist::run_c08(&mut out, &mut rng, args.thorough, only),
+        "c04" => fam_codec::run_c04(&mut out, &mut rng, args.thorough, only),
+        "c05" => fam_codec::run_c05(&mut out, &mut rng, args.thorough, only),
+        "c06" => fam_codec::run_c06(&mut out, &mut rng, args.thorough, only),
+        "c14" => fam_codec::run_c14(&mut out, &mut rng, args.thorough, only),
+        "c15" => fam_codec::run_c15(&mut out, &mut rng, args.thorough, only),
+        #[cfg(feature = "easy")]
+        "c13" => fam_codec::run_c13(&mut out, &mut rng, args.thorough, only),
         "len_sweep" => fam_len::sweep(&mut out, 16),
         "len_codes" => fam_len::codes(&mut out),
         _ => usage(),
